@@ -100,33 +100,47 @@ __CPROVER_ensures(janet_vm.root_fiber == __CPROVER_old(janet_vm.root_fiber) || g
 ;
 
 /* ---- janet_continue_no_check ---------------------------------------------------------------------------------------- */
-static JanetSignal fib_no_check_c(JanetFiber *fiber, Janet in, Janet *out)
-WF_FIBER_REQUIRES(fiber)
-__CPROVER_requires(__CPROVER_is_fresh(out, sizeof(Janet)))
-/* established by janet_check_can_resume at every call site */
-__CPROVER_requires(FIB_RESUMABLE(FIB_ST(fiber->flags)))
-__CPROVER_requires(janet_vm.stackn >= 0 && janet_vm.stackn < JANET_RECURSION_GUARD)
-__CPROVER_requires(g_ran == 0 && g_child_sig == -1)
-__CPROVER_requires(__CPROVER_pointer_equals(g_fiber, fiber))
-__CPROVER_assigns(*fiber, *out, FIB_VM, g_ran, g_child_ran, g_child_sig, g_child_val, g_child_last)
-__CPROVER_assigns(fiber->child != (void *)0: *(fiber->child))
-/* outside the VM, the only stack slot written is the first parameter slot of the current frame (value passed to a new fiber) */
-__CPROVER_assigns(fiber->data[fiber->frame])
-/* the result is a signal, and the status on return equals the returned signal */
-__CPROVER_ensures(IS_SIGNAL(__CPROVER_return_value))
-__CPROVER_ensures(FIB_ST(fiber->flags) == (int) __CPROVER_return_value)
-VM_REGS_RESTORED
-/* nearest enclosing fiber whose mask accepts: a child signal that the child's mask does not accept is re-raised unchanged,
- * with the child's value, the child link kept, and the VM is not entered on this fiber */
-__CPROVER_ensures((g_child_sig > 0 && !(__CPROVER_old(fiber->child)->flags & (1 << g_child_sig))) ==>
-                  ((int) __CPROVER_return_value == g_child_sig && g_ran == 0 && JBITS(*out) == g_child_val &&
-                   JBITS(fiber->last_value) == g_child_last && fiber->child == __CPROVER_old(fiber->child)))
-/* in every other case the fiber itself is run (with the child link cleared - see run_vm's precondition) and the value of
- * the return register arrives in *out and last_value */
-__CPROVER_ensures(!(g_child_sig > 0 && !(__CPROVER_old(fiber->child)->flags & (1 << g_child_sig))) ==>
+#define NO_CHECK_CONTRACT \
+WF_FIBER_REQUIRES(fiber) \
+__CPROVER_requires(__CPROVER_is_fresh(out, sizeof(Janet))) \
+/* established by janet_check_can_resume at every call site */ \
+__CPROVER_requires(FIB_RESUMABLE(FIB_ST(fiber->flags))) \
+__CPROVER_requires(janet_vm.stackn >= 0 && janet_vm.stackn < JANET_RECURSION_GUARD) \
+__CPROVER_requires(g_ran == 0 && g_child_sig == -1) \
+__CPROVER_requires(__CPROVER_pointer_equals(g_fiber, fiber)) \
+__CPROVER_assigns(*fiber, *out, FIB_VM, g_ran, g_child_ran, g_child_sig, g_child_val, g_child_last) \
+__CPROVER_assigns(fiber->child != (void *)0: *(fiber->child)) \
+/* outside the VM, the only stack slot written is the first parameter slot of the current frame (value passed to a new fiber) */ \
+__CPROVER_assigns(fiber->data[fiber->frame]) \
+/* the result is a signal, and the status on return equals the returned signal */ \
+__CPROVER_ensures(IS_SIGNAL(__CPROVER_return_value)) \
+__CPROVER_ensures(FIB_ST(fiber->flags) == (int) __CPROVER_return_value) \
+VM_REGS_RESTORED \
+/* no child => no nested continue */ \
+__CPROVER_ensures(g_child_sig >= -1 && g_child_sig <= JANET_SIGNAL_USER9) \
+__CPROVER_ensures(__CPROVER_old(fiber->child) == (void *)0 ==> g_child_sig == -1) \
+/* nearest enclosing fiber whose mask accepts: a child signal that the child's mask does not accept is re-raised unchanged, \
+ * with the child's value, the child link kept, and the VM is not entered on this fiber */ \
+__CPROVER_ensures((g_child_sig > 0 && !(__CPROVER_old(fiber->child)->flags & (1 << g_child_sig))) ==> \
+                  ((int) __CPROVER_return_value == g_child_sig && g_ran == 0 && JBITS(*out) == g_child_val && \
+                   JBITS(fiber->last_value) == g_child_last && fiber->child == __CPROVER_old(fiber->child))) \
+/* in every other case the fiber itself is run (with the child link cleared - see run_vm's precondition) and the value of \
+ * the return register arrives in *out and last_value */ \
+__CPROVER_ensures(!(g_child_sig > 0 && !(__CPROVER_old(fiber->child)->flags & (1 << g_child_sig))) ==> \
                   (g_ran == 1 && JBITS(*out) == JBITS(fiber->last_value)))
-/* no child => no nested continue */
-__CPROVER_ensures(__CPROVER_old(fiber->child) == (void *)0 ==> g_child_sig == -1)
+
+static JanetSignal fib_no_check_c(JanetFiber *fiber, Janet in, Janet *out)
+NO_CHECK_CONTRACT
+;
+/* the same contract with a stronger precondition (sound: implied by fib_no_check_c), used at the call site in
+ * janet_continue_signal: PROVES that a non-OK signal is planted in the innermost fiber of the pending chain and nowhere else */
+int g_sig; int32_t g_flags0;
+#define DEEPEST(f) ((f)->child == (void *)0 ? (f) : (f)->child->child == (void *)0 ? (f)->child : (f)->child->child)
+static JanetSignal fib_no_check_sig_c(JanetFiber *fiber, Janet in, Janet *out)
+NO_CHECK_CONTRACT
+__CPROVER_requires(g_sig == JANET_SIGNAL_OK ||
+                   ((DEEPEST(fiber)->flags & JANET_FIBER_RESUME_SIGNAL) && FIB_ST(DEEPEST(fiber)->gc.flags) == g_sig))
+__CPROVER_requires((g_sig == JANET_SIGNAL_OK || fiber->child != (void *)0) ==> fiber->flags == g_flags0)
 ;
 
 /* ---- janet_continue / janet_continue_signal: eligibility check + run ------------------------------------------------------ */
@@ -167,9 +181,14 @@ CONTINUE_CONTRACT
 JanetSignal fib_continue_signal_c(JanetFiber *fiber, Janet in, Janet *out, JanetSignal sig)
 __CPROVER_requires(IS_SIGNAL(sig))
 CONTINUE_CONTRACT
+__CPROVER_requires(g_sig == (int) sig && g_flags0 == fiber->flags)
+#ifdef FIB_CHAIN1
+__CPROVER_requires(fiber->child == (void *)0 || fiber->child->child == (void *)0)
+#else
 __CPROVER_requires(fiber->child == (void *)0 || fiber->child->child == (void *)0 ||
                    (__CPROVER_is_fresh(fiber->child->child, sizeof(JanetFiber)) && fiber->child->child->child == (void *)0))
 __CPROVER_assigns(fiber->child != (void *)0 && fiber->child->child != (void *)0: fiber->child->child->flags, fiber->child->child->gc.flags)
+#endif
 ;
 
 void h_continue(void) {
